@@ -194,7 +194,7 @@ func (a array) Zero() {
 	for i := 0; i < l; i++ {
 		val := reflect.NewAt(a.t.Type, storage.ElementAt(i, unsafe.Pointer(&a.Header.Raw[0]), a.t.Size()))
 		val = reflect.Indirect(val)
-		val.Set(reflect.Zero(a.t))
+		val.Set(reflect.Zero(a.t.Type))
 	}
 }
 
